@@ -407,6 +407,8 @@ def check(run):
     run.analysed["ndarray_names"] = len(np_names)
     run.analysed["inplace_operators"] = inplace
     run.analysed["overrides"] = sorted(defined)
+    from ..setterrule import setter_rebinds
+    setter_rebinds(run, ix, "R7", "C02")
     return {
         "explanation": "Coverage of numpy.ndarray's byte-changing entry points by TrackedArray overrides (set "
         "comparison between numpy's method table and the class body), dominance of the dirty-flag store over "
